@@ -70,22 +70,40 @@ def run(ctx, ck):
                 direct = any(isinstance(x, ast.Name) and x.id == kv for t, x in pr2.num)
             dep = direct
             if not dep:
-                # through arrays built from the image sign inside the loop (kvec, kv2, kv2g ...)
-                def depends(expr, at, depth, seen):
-                    for x in ast.walk(expr):
-                        if isinstance(x, ast.Name) and x.id == kv:
-                            return True
-                    if depth <= 0:
+                # far-field style: a multiplicative factor is a sign array built (inside the loop)
+                # only by array constructors from literals and the image sign (kvec, kv2, kv2g)
+                CONSTR = ('np.array', 'np.tile', 'np.copy', 'np.ones', 'np.zeros')
+
+                def is_sign_array(name, at, depth, seen):
+                    if depth <= 0 or (name, at) in seen:
                         return False
-                    for x in ast.walk(expr):
-                        if isinstance(x, ast.Name) and x.id in fl.rd.names and (x.id, at) not in seen:
-                            seen.add((x.id, at))
-                            for d in fl.def_exprs(x.id, at):
-                                if d[0] in ('assign', 'weak') and d[2] in body_ids and d[1] is not None:
-                                    if depends(d[1], d[2], depth - 1, seen):
-                                        return True
-                    return False
-                dep = depends(s.value, nid, 4, set())
+                    seen.add((name, at))
+                    ds = [d for d in fl.def_exprs(name, at) if d[0] == 'assign' and d[2] in body_ids]
+                    if not ds:
+                        return False
+                    found = False
+                    for d in ds:
+                        e = d[1]
+                        if not (isinstance(e, ast.Call) and (dotted(e.func) or '') in CONSTR):
+                            return False
+                        for x in ast.walk(e):
+                            if isinstance(x, ast.Name) and x.id == kv:
+                                found = True
+                            elif isinstance(x, ast.Name) and x.id in fl.rd.names and x.id != name:
+                                if is_sign_array(x.id, d[2], depth - 1, seen):
+                                    found = True
+                    return found
+                v2 = s.value
+                cands = []
+                for sub in ast.walk(v2):
+                    if isinstance(sub, ast.BinOp) and isinstance(sub.op, ast.Mult):
+                        for t_, x_ in product_of(sub).num:
+                            b_ = x_
+                            while isinstance(b_, (ast.Attribute, ast.Subscript)):
+                                b_ = b_.value
+                            if isinstance(b_, ast.Name):
+                                cands.append(b_.id)
+                dep = any(is_sign_array(nm, nid, 4, set()) for nm in set(cands))
             ck.ob('R-EXH.image-loop', '%s|accumulate %s' % (q, norm(s.target)[:40]), dep, f.loc(s),
                   'image contribution weighted by the image sign%s' % (' (factor k)' if direct else
                                                                        ' (through sign arrays)') if dep
@@ -97,7 +115,8 @@ def run(ctx, ck):
         g = if_chain_preds(ctx.flow(it).cfg, ctx.flow(it).node_id_of(r))
         shapes[norm(r.value)] = g
     ok = set(shapes) == {'iter([1])', 'iter([1, -1])'} and \
-        shapes['iter([1])'] == [('self.media is None', True)] and shapes['iter([1, -1])'] == []
+        shapes['iter([1])'] == [('self.media is None', True)] and \
+        shapes['iter([1, -1])'] in ([], [('self.media is None', False)])
     ck.ob('R-LIT.image-iter', it.qual, ok, it.loc(), 'returns %s' % shapes)
 
     from .C08 import check_weights
@@ -135,4 +154,8 @@ def run(ctx, ck):
         'self.ground[gnd] = True' in txt and 'self.inv_ground = np.array([self.ground[1], self.ground[0]])' in txt
     ck.ob('R-PAIR.grounded-pulse', pi.qual, ok, pi.loc(),
           'ground flags, inverse flags, ground sign -1 and sign = direction sign * ground sign')
+    from ._sym import check_ground_symmetry
+    ck.rule('R-SYM.ground-halves', 'statements selecting one half of the ground flags select the other too')
+    nsel, nst = check_ground_symmetry(ctx, ck)
+    ck.floor('statements selecting a half of the ground flags', nst, 3)
     ck.undecided += ['numeric equality with the mirrored free-space model', 'gain 3.0103 dB above the free-space pair']
